@@ -181,7 +181,7 @@ func TestC16(t *testing.T) {
 	}
 	col.Exhaustive("all 32 subsets of {dangling parameter, dangling service, cycle, scope conflict, grammar defect} on a fixed base x the 4 flag combinations")
 
-	setRapidChecks(pick(50, 500))
+	setRapidChecks(pick(80, 1500))
 	opts := gen.All()
 	opts.ValueKinds = false
 	opts.Unicode = false
